@@ -171,6 +171,9 @@ def parse_type(s) -> T:
         return TSeq(TInt(0, 255), "bytes")
     if s == "mmap":
         return TSeq(TInt(0, 255), "mmap")
+    if s == "hex":
+        # a text of hexadecimal digits, modelled as the sequence of its digit VALUES (0..15; letter case abstracted)
+        return TSeq(TInt(0, 15), "hex")
     if s.startswith("array:"):
         tc = s.split(":")[1]
         lo, hi = ARRAY_RANGES[tc]
